@@ -170,6 +170,9 @@ def gen_world(rng, policy=None, allow_zero_runtime=False, closed_loop=False, con
                 g["period"] = rng.choice([10, 25, 50])
     if policy == "EDF":
         flags["enforce_deadlines"] = rng.random() < 0.4
+    if closed_loop:
+        # replicas of one description share nothing but the description (workload_loader.py --replication_factor)
+        flags["replication_factor"] = rng.choice([1, 2, 3])
     return {"workload": {"graphs": graphs, "profiles": profiles}, "workers": pools, "flags": flags,
             "policy": policy}
 
